@@ -344,50 +344,104 @@ Definition resp_str (r : resp) : bytes :=
   | RNotFound => bs "404"
   end.
 
+(* one request description -> (op, remaining arguments) *)
+Definition decode_op (cr : list bytes) (args : list bytes) : option (op * list bytes) :=
+  match args with
+  | [] => None
+  | k :: rest =>
+      if bytes_eqb k (bs "ct") then
+        match rest with
+        | sk :: al :: body :: r => Some (OCreateText (optarg sk) (optarg al) body, r)
+        | _ => None
+        end
+      else if bytes_eqb k (bs "cj") then
+        match rest with
+        | id :: r => let '(margs, r') := take_until_end r [] in
+                     match decode_msg margs with
+                     | Some m => Some (OCreateMsg (if bytes_eqb id (bs "~") then [] else id) m, r')
+                     | None => None
+                     end
+        | _ => None
+        end
+      else if bytes_eqb k (bs "cx") then Some (OBadJSON, rest)
+      else if bytes_eqb k (bs "g") then match rest with id :: r => Some (OGet (resolve cr id), r) | _ => None end
+      else if bytes_eqb k (bs "l") then Some (OList, rest)
+      else if bytes_eqb k (bs "c") then
+        match rest with id :: fm :: nl :: r => Some (OContents (resolve cr id) (optarg fm) (optarg nl), r) | _ => None end
+      else if bytes_eqb k (bs "v") then match rest with id :: r => Some (OValidate (resolve cr id), r) | _ => None end
+      else if bytes_eqb k (bs "a") then
+        match rest with
+        | id :: r => let '(margs, r') := take_until_end r [] in
+                     match decode_msg margs with
+                     | Some m => Some (OAdd (resolve cr id) m, r')
+                     | None => None
+                     end
+        | _ => None
+        end
+      else if bytes_eqb k (bs "d") then match rest with id :: r => Some (ODelete (resolve cr id), r) | _ => None end
+      else None
+  end.
+
 Fixpoint run_http (fuel : nat) (args : list bytes) (st : Server.sstate) (acc : list bytes) : list bytes :=
   match fuel with
   | O => rev acc
   | S f =>
-      let cr := ss_created st in
-      let go (o : option (op * list bytes)) :=
-        match o with
-        | None => rev (bs "bad-args" :: acc)
-        | Some (o, rest) => let '(st', r) := Server.step st o in run_http f rest st' (resp_str r :: acc)
-        end in
       match args with
       | [] => rev acc
+      | _ =>
+          match decode_op (ss_created st) args with
+          | None => rev (bs "bad-args" :: acc)
+          | Some (o, rest) => let '(st', r) := Server.step st o in run_http f rest st' (resp_str r :: acc)
+          end
+      end
+  end.
+
+(* scheduled concurrent requests: setup requests, "#", concurrent requests, "#", the order (one digit per grant) *)
+Fixpoint run_setup (fuel : nat) (args : list bytes) (st : Server.sstate) : option (Server.sstate * list bytes) :=
+  match fuel with
+  | O => None
+  | S f =>
+      match args with
+      | [] => None
       | k :: rest =>
-          if bytes_eqb k (bs "ct") then
-            match rest with
-            | sk :: al :: body :: r => go (Some (OCreateText (optarg sk) (optarg al) body, r))
-            | _ => go None
-            end
-          else if bytes_eqb k (bs "cj") then
-            match rest with
-            | id :: r => let '(margs, r') := take_until_end r [] in
-                         match decode_msg margs with
-                         | Some m => go (Some (OCreateMsg (if bytes_eqb id (bs "~") then [] else id) m, r'))
-                         | None => go None
-                         end
-            | _ => go None
-            end
-          else if bytes_eqb k (bs "cx") then go (Some (OBadJSON, rest))
-          else if bytes_eqb k (bs "g") then match rest with id :: r => go (Some (OGet (resolve cr id), r)) | _ => go None end
-          else if bytes_eqb k (bs "l") then go (Some (OList, rest))
-          else if bytes_eqb k (bs "c") then
-            match rest with id :: fm :: nl :: r => go (Some (OContents (resolve cr id) (optarg fm) (optarg nl), r)) | _ => go None end
-          else if bytes_eqb k (bs "v") then match rest with id :: r => go (Some (OValidate (resolve cr id), r)) | _ => go None end
-          else if bytes_eqb k (bs "a") then
-            match rest with
-            | id :: r => let '(margs, r') := take_until_end r [] in
-                         match decode_msg margs with
-                         | Some m => go (Some (OAdd (resolve cr id) m, r'))
-                         | None => go None
-                         end
-            | _ => go None
-            end
-          else if bytes_eqb k (bs "d") then match rest with id :: r => go (Some (ODelete (resolve cr id), r)) | _ => go None end
-          else go None
+          if bytes_eqb k (bs "#") then Some (st, rest)
+          else match decode_op (ss_created st) args with
+               | None => None
+               | Some (o, rest') => run_setup f rest' (fst (Server.step st o))
+               end
+      end
+  end.
+
+Fixpoint decode_conc (fuel : nat) (cr : list bytes) (args : list bytes) (acc : list op) : option (list op * list bytes) :=
+  match fuel with
+  | O => None
+  | S f =>
+      match args with
+      | [] => None
+      | k :: rest =>
+          if bytes_eqb k (bs "#") then Some (rev acc, rest)
+          else match decode_op cr args with
+               | None => None
+               | Some (o, rest') => decode_conc f cr rest' (o :: acc)
+               end
+      end
+  end.
+
+Definition thread_str (t : thread) : bytes :=
+  match t with TDone r => resp_str r | TReady _ => bs "not-started" | TAddSave _ _ => bs "mid-add" end.
+
+Definition store_str (s : store) : bytes :=
+  join_comma (sort_lines (map (fun p => fst p ++ x3a :: msg_str (snd p)) s)).
+
+Definition run_sched (args : list bytes) : bytes :=
+  match run_setup (S (length args)) args Server.init with
+  | None => bs "bad-args"
+  | Some (st0, rest) =>
+      match decode_conc (S (length rest)) (ss_created st0) rest [] with
+      | Some (ops, [order]) =>
+          let '(st, ts) := run_concurrent st0 ops (map (fun b => N.to_nat (bN b - 48)) order) in
+          join_bar (map thread_str ts) ++ bs "||" ++ store_str (ss_store st)
+      | _ => bs "bad-args"
       end
   end.
 
@@ -396,7 +450,8 @@ Definition run (fn : bytes) (args : list bytes) : bytes :=
   if bytes_eqb kind (bs "validator") then res_err (run_validator (string_of_list_byte name) args)
   else if bytes_eqb kind (bs "tag") then run_tag name args
   else if bytes_eqb kind (bs "meta") then run_meta name args
-  else if bytes_eqb kind (bs "http") then join_bar (run_http (S (length args)) args Server.init [])
+  else if bytes_eqb kind (bs "http") then
+    (if bytes_eqb name (bs "sched") then run_sched args else join_bar (run_http (S (length args)) args Server.init []))
   else if bytes_eqb kind (bs "read") then run_read args
   else if bytes_eqb kind (bs "prop") then run_prop name args
   else if bytes_eqb kind (bs "msg") then
@@ -487,9 +542,9 @@ Definition prop_owner (name : bytes) : list string :=
   else if bytes_eqb name (bs "accepted-valid") then ["C04"%string]
   else if bytes_eqb name (bs "write-fault") then ["C08"%string]
   else if bytes_eqb name (bs "text-reread") then ["C02"%string]
-  else if bytes_eqb name (bs "http-status-documented") || bytes_eqb name (bs "http-error-body-json") then ["C17"%string]
-  else if bytes_eqb name (bs "http-log-isolation") then ["C18"%string]
-  else if bytes_eqb name (bs "http-stored-valid") then ["C17"%string]
+  else if bytes_eqb name (bs "http-status-documented") || bytes_eqb name (bs "http-error-body-json") || bytes_eqb name (bs "http-log-isolation")
+          || bytes_eqb name (bs "http-race-free") || bytes_eqb name (bs "http-no-panic") then ["C18"%string]
+  else if bytes_eqb name (bs "http-faithful") then ["C17"%string]
   else if bytes_eqb name (bs "http-linearizable") then ["C16"%string]
   else [].
 
